@@ -170,8 +170,31 @@ def check_track(ctx, tr, tl, w, bpm, name=None, instrument=None, metas=True, fir
                       [(e["kind"], e["ch"], e["d1"]) for e in cc + pc][:4], mechanism="spurious-program-change")
 
 
+def low_level_prelude():
+    """A track assembled by hand through MidiTrack's public methods, with non-zero delta times in front of key and time
+    signatures and tempo changes (hand-placed changes in the middle of a piece), for every key and several meters."""
+    from rv.models import theory as T_
+    from mingus.containers import Note
+    t = MidiTrack(90)
+    n = Note("C", 4)
+    for k, (kname, _s, _m) in enumerate(T_.KEYS):
+        t.set_deltatime(96 + k)
+        t.set_key(kname)
+        t.set_deltatime(48)
+        t.set_meter((3 + k % 4, 2 ** (k % 4)))
+        t.set_deltatime(7)
+        t.set_tempo(60 + k)
+        t.set_deltatime(0)
+        t.play_Note(n)
+        t.set_deltatime(72)
+        t.stop_Note(n)
+    return len(t.get_midi_data())
+
+
 def run(shard, ctx):
     kind = shard["kind"]
+    if kind in ("files", "systematic"):
+        ctx.extra["low_level_prelude_bytes"] = low_level_prelude()
     if kind == "files":
         rng = ctx.rng("files")
         values = MM.midi_vocabulary()
